@@ -1,6 +1,7 @@
 package main
 
 import (
+	"go/constant"
 	"fmt"
 	"go/token"
 	"go/types"
@@ -66,6 +67,40 @@ func kindsInto(b *ssa.BasicBlock) map[int64]bool {
 		}
 	}
 	walk(b)
+	return out
+}
+
+// kindPredicate: cond is a call of a module function taking one reflect.Kind and returning bool; the result is the set of
+// kinds for which some `return true` is reachable only through an equality test with that kind.
+func kindPredicate(cond ssa.Value) map[int64]bool {
+	out := map[int64]bool{}
+	cl, ok := cond.(*ssa.Call)
+	if !ok {
+		return out
+	}
+	cal := staticCallee(cl.Common())
+	if cal == nil || cal.Blocks == nil || !strings.HasPrefix(pkgPathOf(cal), Mod) || len(cal.Params) != 1 || cal.Signature.Results().Len() != 1 || !isBool(cal.Signature.Results().At(0).Type()) {
+		return out
+	}
+	if nt, ok := cal.Params[0].Type().(*types.Named); !ok || nt.Obj().Pkg() == nil || nt.Obj().Pkg().Path() != "reflect" || nt.Obj().Name() != "Kind" {
+		return out
+	}
+	for _, ret := range returnsOf(cal) {
+		c, isC := retResult(ret, 0).(*ssa.Const)
+		if !isC || c.Value == nil || !constant.BoolVal(c.Value) {
+			if !isC {
+				return map[int64]bool{} // computed result: not a plain membership predicate
+			}
+			continue
+		}
+		ks := kindsInto(ret.Block())
+		if len(ks) == 0 {
+			return map[int64]bool{} // returns true without a kind test
+		}
+		for k := range ks {
+			out[k] = true
+		}
+	}
 	return out
 }
 
@@ -144,6 +179,14 @@ func c09(c *Ctx) {
 				}
 			}
 			ks := kindsInto(b)
+			for _, g := range guardsAt(b) {
+				if !g.Pol {
+					continue
+				}
+				for k := range kindPredicate(g.Cond) {
+					ks[k] = true
+				}
+			}
 			missing := []string{}
 			for _, k := range needNil {
 				if !ks[k] {
